@@ -569,6 +569,10 @@ impl<'l, Data> EventLoop<'l, Data> {
                 .collect();
             crate::verif::observe(crate::verif::Obs::Synthetic { keys: &keys });
         }
+        // An error of one source must not make the other sources lose their events: the batch
+        // holds expired timers and one-shot / edge-triggered readiness that will not be reported
+        // again.  Finish the batch, then report the first error.
+        let mut first_error = None;
         for event in self.synthetic_events.drain(..).chain(events) {
             // Get the registration token associated with the event.
             let reg_token = event.token.inner.forget_sub_id();
@@ -598,10 +602,14 @@ impl<'l, Data> EventLoop<'l, Data> {
                     .inner
                     .pending_action
                     .replace(PostAction::Continue);
-                let mut ret = ret?;
-                if let PostAction::Continue = ret {
-                    ret = pending_action;
-                }
+                let ret = match ret {
+                    Ok(PostAction::Continue) => pending_action,
+                    Ok(ret) => ret,
+                    Err(err) => {
+                        first_error.get_or_insert(err);
+                        PostAction::Continue
+                    }
+                };
                 #[cfg(calloop_verif)]
                 crate::verif::observe(crate::verif::Obs::Apply {
                     key: event.token.verif_raw(),
@@ -614,7 +622,7 @@ impl<'l, Data> EventLoop<'l, Data> {
                             source = reg_token.get_id(),
                             "Postaction reregister for source"
                         );
-                        disp.reregister(
+                        if let Err(err) = disp.reregister(
                             &mut self.handle.inner.poll.borrow_mut(),
                             &mut self
                                 .handle
@@ -622,14 +630,16 @@ impl<'l, Data> EventLoop<'l, Data> {
                                 .sources_with_additional_lifecycle_events
                                 .borrow_mut(),
                             &mut TokenFactory::new(reg_token),
-                        )?;
+                        ) {
+                            first_error.get_or_insert(err);
+                        }
                     }
                     PostAction::Disable => {
                         trace!(
                             source = reg_token.get_id(),
                             "Postaction unregister for source"
                         );
-                        disp.unregister(
+                        if let Err(err) = disp.unregister(
                             &mut self.handle.inner.poll.borrow_mut(),
                             &mut self
                                 .handle
@@ -637,7 +647,9 @@ impl<'l, Data> EventLoop<'l, Data> {
                                 .sources_with_additional_lifecycle_events
                                 .borrow_mut(),
                             RegistrationToken::new(reg_token),
-                        )?;
+                        ) {
+                            first_error.get_or_insert(err);
+                        }
                     }
                     PostAction::Remove => {
                         trace!(source = reg_token.get_id(), "Postaction remove for source");
@@ -678,7 +690,10 @@ impl<'l, Data> EventLoop<'l, Data> {
             }
         }
 
-        Ok(())
+        match first_error {
+            Some(err) => Err(err),
+            None => Ok(()),
+        }
     }
 
     fn dispatch_idles(&mut self, data: &mut Data) {
